@@ -15,15 +15,17 @@ Mix(sd, k) == Nx(<<(sd[1] + 7 * k) % 46337, (sd[2] + 13 * k) % 46309>>)
 Start == Nx(Nx(<<(Seed0 * 31 + 17) % 46337, (Seed0 * 57 + 5) % 46309>>))
 
 \* weighted towards programs; every name of the pool occurs
-FilePool == <<2, 3, 4, 15, 9, 4, 15, 2, 5, 12, 10, 14, 11, 1, 6, 7, 16, 3, 10, 5>>
+FilePool == <<Idx("B.lp"), Idx("a-b.lp"), Idx("a.lp"), Idx("z.lp"), Idx("e.spec.lp"), Idx("a.lp"), Idx("z.lp"), Idx("B.lp"), Idx("a.spec"),
+              Idx("o.spec"), Idx("m.ug"), Idx("y.ug"), Idx("n.po"), Idx(".lp"), Idx("c.lp.bak"), Idx("d.LP"), Idx("zz"), Idx("a-b.lp"),
+              Idx("m.ug"), Idx("a.spec"), Idx(".h.lp"), Idx(".h.lp")>>
 \* k distinct entries (by name) for a directory
 RECURSIVE Entries(_, _, _, _)
 Item(sd, depth) ==
   LET c == Val(sd) % 100
       s1 == Nx(sd)
   IN IF c < 62 \/ depth = 0 THEN [it |-> [k |-> "f", n |-> Pick(s1, FilePool)], sd |-> Nx(s1)]
-     ELSE IF c < 64 THEN (IF depth = 2 THEN [it |-> [k |-> "x", n |-> 16], sd |-> s1] ELSE [it |-> [k |-> "f", n |-> 16], sd |-> s1])
-     ELSE LET dn == IF Val(s1) % 2 = 0 THEN 8 ELSE 13
+     ELSE IF c < 64 THEN (IF depth = 2 THEN [it |-> [k |-> "x", n |-> Idx("zz")], sd |-> s1] ELSE [it |-> [k |-> "f", n |-> Idx("zz")], sd |-> s1])
+     ELSE LET dn == Pick(s1, <<Idx("dir"), Idx("sub"), Idx("dir"), Idx(".hid")>>)
               cnt == Val(Nx(s1)) % 4
               es == Entries(Nx(Nx(s1)), cnt, depth - 1, {})
           IN [it |-> [k |-> "d", n |-> dn, es |-> es.es], sd |-> es.sd]
@@ -41,9 +43,9 @@ Extra(l, sd, pct, pool) == IF Val(sd) % 100 < pct THEN InsAt(l, Val(Nx(sd)) % (L
 LayoutCase(n, sd) ==
   LET k == 1 + (Val(sd) % 4)
       a == Args(Nx(sd), k)
-      l1 == Extra(a.l, a.sd, 70, <<10, 14>>)
-      l2 == Extra(l1, Nx(Nx(Nx(a.sd))), 30, <<5, 12>>)
-      l == Extra(l2, Nx(Mix(a.sd, 5)), 25, <<11>>)
+      l1 == Extra(a.l, a.sd, 70, <<Idx("m.ug"), Idx("y.ug")>>)
+      l2 == Extra(l1, Nx(Nx(Nx(a.sd))), 30, <<Idx("a.spec"), Idx("o.spec")>>)
+      l == Extra(l2, Nx(Mix(a.sd, 5)), 25, <<Idx("n.po")>>)
   IN [id |-> "L" \o ToString(n), layout |-> l, strong |-> StrongRoles(l), external |-> ExternalRoles(l),
       visited |-> Visited(l), names |-> Names]
 VARIABLES n, sd
